@@ -33,7 +33,6 @@ RULE = (
 )
 ASSUMPTIONS = [
     "NaN row propagation is documented behaviour: a row with a NaN in any column is reported as all-NaN",
-    "evaluation_info arrays are handed through by reference and are not part of the immutability clause",
 ]
 COMPONENTS = {
     "real": ["_evaluator_results.py (contexts, labels, transforms, splitting)", "EnsembleEvaluator", "results.* (_immutable_copy)", "filters", "VariableScaler"],
@@ -87,6 +86,9 @@ def _arrays_of(item):
     for f in ("variables", "objectives", "constraints", "perturbed_variables", "perturbed_objectives", "perturbed_constraints"):
         if hasattr(ev, f) and getattr(ev, f) is not None:
             out.append((f"evaluations.{f}", getattr(ev, f)))
+    for key, val in (getattr(ev, "evaluation_info", None) or {}).items():
+        if isinstance(val, np.ndarray):
+            out.append((f"evaluations.evaluation_info[{key!r}]", val))
     rl = item.realizations
     for f in ("failed_realizations", "objective_weights", "constraint_weights"):
         if getattr(rl, f) is not None:
